@@ -144,6 +144,9 @@ func Now() int64 { return time.Now().Unix() }
 
 // SetClock advances the bubble's clock to the given Unix time (never back).
 func SetClock(e *Env, unix int64) {
+	if unix > math.MaxInt32 {
+		e.Note("clock-after-2038")
+	}
 	d := time.Unix(unix, 0).Sub(time.Now())
 	if d > 0 {
 		time.Sleep(d)
